@@ -4,6 +4,8 @@
 -/
 import Sfv.Driver.Sexp
 import Sfv.Driver.Nav
+import Sfv.Driver.Io
+import Sfv.Driver.CryptoIo
 import Sfv.Model.Container
 import Sfv.Model.Evolve
 import Sfv.Model.SchemaDiff
@@ -139,6 +141,19 @@ def step (st : DState) (line : String) : DState × String :=
         | .ok (v, r) => (st, "(ok " ++ showTV ty v ++ " " ++ toString r.length ++ ")")
         | .error e => (st, showLoadErr e)
       | _, _, _ => (st, "(bad-op loadfile)")
+    | .list [.atom "rfault", .atom "noschema", .atom name, .atom memver, .atom hex, .atom off] =>
+      -- a reader that fails for good once `off` bytes went through: the loader reports the I/O error iff
+      -- it needs a byte at or beyond `off` (on the prefix it runs out of data), else it behaves as on the prefix
+      match st.env.lookup name, memver.toNat?, parseHex hex, off.toNat? with
+      | some ty, some memver, some bs, some off =>
+        match loadFile st.cfg zooConv opaqueSchema none ty memver (bs.take off) with
+        | .ok (v, _) => (st, "(ok " ++ showTV ty v ++ ")")
+        | .error e => (st, if showLoadErr e == "(err eof)" then "(err io)" else showLoadErr e)
+      | _, _, _, _ => (st, "(bad-op rfault)")
+    | .list [.atom "wsave", .list (.atom "ops" :: ops), .list (.atom "log" :: log)] =>
+      match wsaveRequest ops log with
+      | some r => (st, r)
+      | none => (st, "(bad-op wsave)")
     | .list [.atom "ext", .atom writer, .atom reader, .atom ver] =>
       -- hypothesis of c03_upgrade / c18_downgrade: everything the writer's grammar at `ver` encodes is
       -- encoded identically by the reader's grammar at `ver`
@@ -221,7 +236,10 @@ def step (st : DState) (line : String) : DState × String :=
     | sx =>
       match navRequest sx with
       | some r => (st, r)
-      | none => (st, "(bad-op unknown)")
+      | none =>
+        match decstreamRequest sx with
+        | some r => (st, r)
+        | none => (st, "(bad-op unknown)")
 
 partial def loop (h : IO.FS.Stream) (out : IO.FS.Stream) (st : DState) : IO Unit := do
   let line ← h.getLine
